@@ -379,6 +379,30 @@ func runC08(tier string, seed uint64) {
 					} else {
 						emit("c08", "BAD", hs("S:chunked-part-digest "+msg))
 					}
+					// the same part sent again with other bytes under the digest of the first, the transfer ending
+					// early at every point (inside a data chunk, between chunks, inside the closing chunk): the
+					// digest does not match what arrived, so none of them is accepted and the part stays
+					st2 := encodeChunks(splitChunks(pay2, []int{9}))
+					cutBad, cutN := "", 0
+					for k := 0; k < len(st2); k++ {
+						if k > 40 && k < len(st2)-100 && k%7 != 0 {
+							continue
+						}
+						for _, declared := range []int{len(st2[:k]), len(st2)} {
+							r := do(s.h, Req{Method: "PUT", Path: "/" + b + "/mp-chunked?uploadId=" + queryEscape(ids[0]) + "&partNumber=1", Reader: bytes.NewReader(st2[:k]), NoCL: true, Header: [][2]string{
+								{"Content-Length", strconv.Itoa(declared)},
+								{"X-Amz-Content-Sha256", "STREAMING-AWS4-HMAC-SHA256-PAYLOAD"}, {"X-Amz-Decoded-Content-Length", strconv.Itoa(len(pay2))}, {"Content-MD5", b64md5(pay1)}}})
+							cutN++
+							if now := parts(); (r.Status < 400 || now != held) && cutBad == "" {
+								cutBad = fmt.Sprintf("cut after %d of %d framed bytes (Content-Length %d) answers %d; the upload held %s and holds %s", k, len(st2), declared, r.Status, held, now)
+							}
+						}
+					}
+					if cutBad == "" {
+						emit("c08", "GOOD", hs(fmt.Sprintf("%s: aws-chunked part re-sent with other bytes under the first digest and cut short at %d points: all refused, the part stays", kind, cutN)))
+					} else {
+						emit("c08", "BAD", hs("S:cut-chunked-part-with-wrong-digest-accepted "+kind+": aws-chunked part re-sent with other bytes under the digest of the first: "+cutBad))
+					}
 					do(s.h, Req{Method: "DELETE", Path: "/" + b + "/mp-chunked?uploadId=" + queryEscape(ids[0])})
 					nontrivial(fmt.Sprint(kind, "chunked-part-with-digest"))
 				}
